@@ -12,7 +12,10 @@ pub mod c03;
 pub mod c04;
 pub mod c05;
 pub mod c06;
+pub mod bracket;
 pub mod c07;
+pub mod c10;
+pub mod c11;
 pub mod c16;
 pub mod c17;
 
@@ -27,6 +30,8 @@ pub fn make(property: &str) -> Vec<Box<dyn Monitor>> {
         "C17" => vec![Box::new(c17::C17::default())],
         "C05" => vec![Box::new(c05::C05::default())],
         "C07" => vec![Box::new(c07::C07::default())],
+        "C10" => vec![Box::new(c10::C10::default())],
+        "C11" => vec![Box::new(c11::C11::default())],
         "ALL" => vec![
             Box::new(c02::C02::default()),
             Box::new(c16::C16::default()),
@@ -37,6 +42,8 @@ pub fn make(property: &str) -> Vec<Box<dyn Monitor>> {
             Box::new(c17::C17::default()),
             Box::new(c05::C05::default()),
             Box::new(c07::C07::default()),
+            Box::new(c10::C10::default()),
+            Box::new(c11::C11::default()),
         ],
         _ => vec![],
     }
